@@ -367,8 +367,12 @@ def rules(rep, m):
             r6.ok()
     tcl = m.need("cmb_process_timers_clear")
     tcx = FuncCtx(m, tcl)
-    conds = [tcx.canon(kids(x)[0]) for x in walk(tcl.body) if x["kind"] == "IfStmt"]
-    if not any("CMI_PROCESS_AWAITABLE_TIME" in c and "==" in c for c in conds):
+    # every withdrawal (event cancel / tag recycling) in timers_clear happens under 'the awaitable is a TIME one'
+    acts = [x for x in walk(tcl.body) if x["kind"] == "CallExpr" and callee_ref(x) in ("cmb_event_cancel", "cmi_mempool_free", "cmi_slist_pop")]
+    def time_only(n_):
+        return any(re.search(r"^\(.*type == (CMI_PROCESS_AWAITABLE_TIME|enum:CMI_PROCESS_AWAITABLE_TIME|\d+)\)$|^!\(.*type != (CMI_PROCESS_AWAITABLE_TIME|\d+)\)$", cd)
+                   for cd in inv.dominating_conditions(tcx, tcl, n_))
+    if not acts or not all(time_only(x) for x in acts):
         rep.finding(r6, tcl.name, "timers-clear:kind", "timers_clear does not restrict itself to TIME awaitables", where=m.rel(tcl.where))
         r6.fail()
     else:
